@@ -559,7 +559,11 @@ function autoScenarios(job, defEffs, defLog) {
   const scen = [{ sid: 'default', resp: {} }];
   const add = (resp) => { if (scen.length < max) scen.push({ sid: 's' + scen.length, resp }); };
   const free = (Array.isArray(job.free) ? job.free : []).filter((x) => typeof x === 'string');
-  if (free.length) add({ ['var:' + free[0]]: { k: 'undef' } });
+  // free variables the program text actually mentions (as whole words)
+  const used = free.filter((x) => new RegExp('(^|[^\\w$.])' + x + '($|[^\\w$])').test(job.in));
+  const uv = used.length ? used : free;
+  if (uv.length) add({ ['var:' + uv[seed % uv.length]]: { k: 'undef' } });
+  if (uv.length && max >= 6) add({ ['var:' + uv[(seed + 1) % uv.length]]: { k: 'unbound' } });
   const effs = [];
   for (let i = 0; i < defEffs.length; i++) {
     const e = defEffs[i];
@@ -570,7 +574,10 @@ function autoScenarios(job, defEffs, defLog) {
   const seen = new Set();
   for (let i = 0; n > 0 && scen.length < max && i < n * 5; i++) {
     const eff = effs[(seed + i) % n];
-    const rs = eff.startsWith('call:') ? base.concat([{ k: 'reenter' }]) : base;
+    // calls and getters may also reassign a captured variable of the program before answering
+    const asg = uv.length ? [{ k: 'assign', name: uv[(seed + i) % uv.length], to: { k: 'str', v: 'Z' } }] : [];
+    const rs = eff.startsWith('call:') ? base.concat([{ k: 'reenter' }], asg)
+      : eff.startsWith('get:') ? base.concat(asg) : base;
     const r = rs[(seed + i + Math.floor(i / n)) % rs.length];
     const key = eff + '|' + JSON.stringify(r);
     if (seen.has(key)) continue;
